@@ -20,12 +20,13 @@ def trunc(path):
 
 
 class Summary:
-    __slots__ = ("ret", "ret_cells", "out", "ret_alias", "sinks", "conservative")
+    __slots__ = ("ret", "ret_cells", "out", "must", "ret_alias", "sinks", "conservative")
 
     def __init__(self):
         self.ret = EMPTY            # labels of the return value (all paths joined)
         self.ret_cells = {}         # path -> labels of the return value
         self.out = {}               # (param i, path) -> labels written into the pointee
+        self.must = frozenset()     # (param i, path) strongly overwritten on every path to return
         self.ret_alias = set()      # params whose pointees the return value may point into
         self.sinks = {}             # (kind, desc) -> labels reaching a sink
         self.conservative = False
@@ -215,6 +216,7 @@ class FnAnalysis:
         self.ret_labels = EMPTY
         self.ret_cells = {}
         self.written = set()
+        self.must_ret = None
         self.events = {}       # sink events (kind, site) -> labels
 
     # ---- state helpers: state = {root: {path: labels}} ----
@@ -239,6 +241,8 @@ class FnAnalysis:
         root, path = cell
         if isinstance(root, tuple) and root[0] == "P":
             self.written.add((root[1], path))
+            if strong and "[]" not in path:
+                st["__must__"] = st.get("__must__", EMPTY) | frozenset([(root[1], path)])
         d = st.get(root)
         d = dict(d) if d else {}
         if strong:
@@ -257,7 +261,15 @@ class FnAnalysis:
         """join b into a; returns (new, changed)"""
         changed = False
         out = a
+        ma, mb = a.get("__must__", EMPTY), b.get("__must__", EMPTY)
+        mi = ma & mb
+        if mi != ma:
+            out = dict(a)
+            out["__must__"] = mi
+            changed = True
         for root, db in b.items():
+            if root == "__must__":
+                continue
             da = out.get(root)
             if da is db:
                 continue
@@ -474,6 +486,7 @@ class FnAnalysis:
         s = self.summary
         s.ret = self.ret_labels
         s.ret_cells = self.ret_cells
+        s.must = self.must_ret or frozenset()
         # outputs: final contents of param pointees at return blocks
         for (kind, site, detail), labels in self.events.items():
             s.sinks[(kind, site, detail)] = labels
@@ -513,6 +526,8 @@ class FnAnalysis:
         elif k == "call":
             self.call(bi, t, st, ctrl)
         elif k == "ret":
+            m_ = st.get("__must__", EMPTY)
+            self.must_ret = m_ if self.must_ret is None else (self.must_ret & m_)
             self.ret_labels |= self.st_read(st, (0, ()))
             for p_, l_ in st.get(0, {}).items():
                 self.ret_cells[p_] = self.ret_cells.get(p_, EMPTY) | l_
@@ -748,14 +763,17 @@ class FnAnalysis:
             if i - 1 >= len(argv):
                 continue
             outs.append((i, path, self.subst(labels, argv, st) | extra))
+        outs.sort(key=lambda o: len(o[1]))   # prefixes first: a strong write of a prefix must not kill its sub-cells
         for (i, path, labels) in outs:
             l, p, op = argv[i - 1]
             if p:
                 single = len(p) == 1
                 for (r, pp) in p:
                     cell = (r, trunc(pp + path))
-                    # a callee's write is only known to happen on some path: never kill the caller's labels
-                    self.st_write(st, cell, labels, False)
+                    # kill the caller's labels only when the callee overwrites the cell on every path
+                    strong = single and (i, path) in summ.must and "[]" not in cell[1] and len(pp + path) <= DEPTH \
+                        and not (isinstance(r, tuple) and r[0] in ("U", "PP"))
+                    self.st_write(st, cell, labels, strong)
         rp = set()
         for i in summ.ret_alias:
             if i - 1 < len(argv) and argv[i - 1][1]:
